@@ -29,6 +29,7 @@ def _worker(modname, case_index, tier, conn):
                                    "separate", "fmod_fork", "argsort_mode", "incremental_discharge", "abstract_mul") if k in case}
         res = engine.explore(case["fn"], case["params"], case_name=case["name"], **kw)
         res["fn"] = case["fn"].__name__
+        res["fn_module"] = case["fn"].__module__
         conn.send(json.dumps(res, default=_default))
     except BaseException as e:  # noqa
         conn.send(json.dumps({"case": f"#{case_index}", "crash": traceback.format_exc()}))
@@ -166,7 +167,7 @@ def main_property(prop, tier="quick", seed=0, jobs=None):
                 known_hits.setdefault((k["obligation"], k.get("case", "*"), k["what"]), []).append(name)
                 continue
             rp = os.path.join(VERIF, "replays", prop, re.sub(r"[^A-Za-z0-9_.-]+", "_", f"{name}__{v['obligation']}") + ".json")
-            engine.write_replay(rp, prop, modname, r["fn"], v)
+            engine.write_replay(rp, prop, r.get("fn_module", modname), r["fn"], v)
             violations.append((name, v["obligation"], rp))
         per_case.append({"case": name, "paths": r.get("paths"), "obligations": r.get("obligations"), "discharged": r.get("discharged"),
                          "violations": [v["obligation"] for v in r.get("violations", [])], "wall_s": r.get("wall_s"),
